@@ -28,9 +28,19 @@ func (netTimeoutErr) Error() string   { return "sim: injected transport error (i
 func (netTimeoutErr) Timeout() bool   { return true }
 func (netTimeoutErr) Temporary() bool { return true }
 
+// ErrInjectedTemp is a transport error that calls itself temporary but not a
+// timeout (an interrupted system call, say).
+var ErrInjectedTemp error = netTempErr{}
+
+type netTempErr struct{}
+
+func (netTempErr) Error() string   { return "sim: injected transport error (temporary)" }
+func (netTempErr) Timeout() bool   { return false }
+func (netTempErr) Temporary() bool { return true }
+
 // IsInjected reports whether err is (or wraps) one of the injected faults.
 func IsInjected(err error) bool {
-	return errors.Is(err, ErrInjected) || errors.Is(err, ErrInjectedNet)
+	return errors.Is(err, ErrInjected) || errors.Is(err, ErrInjectedNet) || errors.Is(err, ErrInjectedTemp)
 }
 
 // Segmentation modes (how many bytes one Read may see).
@@ -66,6 +76,7 @@ type Pipe struct {
 	OnWrite     func() // called at the start of every Write (an observer standing at the destination)
 	FailOnce    bool   // only the WFailAt-th write call fails; later ones are accepted (and counted in AfterErr)
 	NetErr      bool   // injected failures are net.Errors with Timeout() and Temporary() true
+	TempErr     bool   // injected failures are net.Errors with Temporary() true and Timeout() false
 	// Transient: byte ranges [from, to) of In inside which one Read (the
 	// first that starts there, chosen by TransientSalt) fails with a
 	// temporary net.Error and delivers nothing; the next Read goes on as if
@@ -155,6 +166,9 @@ func (p *Pipe) hitEnd() error {
 }
 
 func (p *Pipe) injected() error {
+	if p.TempErr {
+		return ErrInjectedTemp
+	}
 	if p.NetErr {
 		return ErrInjectedNet
 	}
